@@ -439,7 +439,7 @@ def universe(rng, g, groups):
     extra -= names
     extra = sorted(extra)
     rng.shuffle(extra)
-    return sorted(names) + sorted(extra[:25]) + ["zz-never"]
+    return sorted(names) + sorted(extra[:12]) + ["zz-never"]
 
 
 # ----------------------------------------------------------------------------------------------------------------
@@ -771,7 +771,7 @@ def run_graph(job):
             grp = groups[built[rng.randrange(len(built))]]
             merged = group_map(g, grp)
             how = "program" if pi % 2 == 0 else "dash-e"
-            raising = (gi % 10 == 0 and how == "program") or (gi % 10 == 5 and how == "dash-e")
+            raising = (gi % 20 == 0 and how == "program") or (gi % 20 == 10 and how == "dash-e")
             run_program(b, d, g, gtxt, grp, merged, names, how, raising, rng, out, count)
     finally:
         shutil.rmtree(d, ignore_errors=True)
